@@ -77,15 +77,7 @@ pub fn complete(
             }
         } else if let Some((flag, value)) = arg.to_long() {
             if let Ok(flag) = flag {
-                let opt = current_cmd.get_arguments().find(|a| {
-                    let longs = a.get_long_and_visible_aliases();
-                    let is_find = longs.map(|v| {
-                        let mut iter = v.into_iter();
-                        let s = iter.find(|s| *s == flag);
-                        s.is_some()
-                    });
-                    is_find.unwrap_or(false)
-                });
+                let opt = current_cmd.get_arguments().find(|a| arg_has_long(a, flag));
 
                 if let Some(opt) = opt {
                     if opt.get_num_args().expect("built").takes_values() && value.is_none() {
@@ -597,15 +589,7 @@ fn parse_shortflags<'c, 's>(
         match short.next_flag() {
             Some(Ok(opt)) => {
                 leading_flags.push(opt);
-                let opt = cmd.get_arguments().find(|a| {
-                    let shorts = a.get_short_and_visible_aliases();
-                    let is_find = shorts.map(|v| {
-                        let mut iter = v.into_iter();
-                        let c = iter.find(|c| *c == opt);
-                        c.is_some()
-                    });
-                    is_find.unwrap_or(false)
-                });
+                let opt = cmd.get_arguments().find(|a| arg_has_short(a, opt));
                 if opt
                     .map(|o| o.get_num_args().expect("built").takes_values())
                     .unwrap_or(false)
@@ -622,6 +606,22 @@ fn parse_shortflags<'c, 's>(
     }
 
     (leading_flags, takes_value_opt, short)
+}
+
+/// Whether `--flag` names this argument for the parser: its long name or any alias, hidden or not.
+fn arg_has_long(arg: &clap::Arg, flag: &str) -> bool {
+    arg.get_long() == Some(flag)
+        || arg
+            .get_all_aliases()
+            .is_some_and(|aliases| aliases.contains(&flag))
+}
+
+/// Whether `-flag` names this argument for the parser: its short name or any short alias, hidden or not.
+fn arg_has_short(arg: &clap::Arg, flag: char) -> bool {
+    arg.get_short() == Some(flag)
+        || arg
+            .get_all_short_aliases()
+            .is_some_and(|aliases| aliases.contains(&flag))
 }
 
 /// Parse the positional arguments. Return the new state and the new positional index.
